@@ -26,12 +26,16 @@ theorem reseedLoop_ok {ι : Type} (newKeys : List (String × SymKey)) : ∀ (obj
     obtain ⟨n, s⟩ := a
     have ih' := ih (fun p hp => h p (List.mem_cons_of_mem _ hp))
     have hs := h (n, s) (by simp)
-    simp only [reseedLoop, List.map_cons, reseedOne]
+    simp only [reseedLoop, List.map_cons]
     cases hf : find? s.tag newKeys with
-    | none => simp only [ih', bind, Except.bind]
+    | none =>
+      simp only [ih', bind, Except.bind]
+      simp only [reseedOne, hf]
     | some k =>
       cases hk : s.key with
-      | scalar k0 => simp only [ih', bind, Except.bind]
+      | scalar k0 =>
+        simp only [ih', bind, Except.bind]
+        simp only [reseedOne, hf]
       | batched k0 shape => exact absurd ⟨by simp [hf], k0, shape, hk⟩ hs
 
 theorem reseedLoop_error {ι : Type} (newKeys : List (String × SymKey)) : ∀ (objs : List (ι × Stream)),
